@@ -218,13 +218,12 @@ def check_builder_ops(chk, prog, cfg, rule="R12.2"):
             if sp.endswith("Interner::intern_or_get") and len(args) == 2:
                 self.log.append(("intern_or_get", args[0], args[1]))
                 return ("tuple", [S_("INSERTED"), ("variant", "Symbol", [S_("ID"), ("tuple", [])], 0, ("id", "marker"), SYM)])
-            if sp.endswith("Interner::elements") and len(args) == 1:
-                self.log.append(("elements", args[0]))
-                return ("vec", E)
             return symrun.Run.handler(self, name, args, t)
+    # the interner holds the concrete table [t0, t1, t2]; how the builder reads it (elements(), a length accessor, an iterator helper) is interpreted
+    INTERNER = symrun.struct(prog, "scale_info::interner::Interner", "self.types", vec=("vec", E))
 
     def builder():
-        return symrun.struct(prog, PRB, "self", types=S_("self.types"))
+        return symrun.struct(prog, PRB, "self", types=INTERNER)
 
     def judge(key, fn, args, good):
         b_ = anchor(chk, prog, "PortableRegistryBuilder::" + fn)
@@ -238,10 +237,10 @@ def check_builder_ops(chk, prog, cfg, rule="R12.2"):
             ok, detail = False, "cannot interpret (or panics): %s" % e
         chk.expect(ok, rule, key, b_.where(), detail, cfg)
     judge("builder:register_type", "register_type", [builder(), S_("TY")],
-          lambda v, log: (v == S_("ID") and [x for x in log if x[0] == "intern_or_get"] == [("intern_or_get", S_("self.types"), S_("TY"))],
+          lambda v, log: (v == S_("ID") and [x for x in log if x[0] == "intern_or_get"] == [("intern_or_get", INTERNER, S_("TY"))],
                           "returns %s after %s (required: the id intern_or_get(self.types, ty) answers, one call)" % (symrun.show(v), [x[0] for x in log])))
     judge("builder:next_type_id", "next_type_id", [builder()],
-          lambda v, log: (v == 3 and all(x == ("elements", S_("self.types")) for x in log) and bool(log),
+          lambda v, log: (v == 3 and not [x for x in log if x[0] in ("intern_or_get", "push")],
                           "with 3 registered types next_type_id() = %s (required: the number of elements)" % symrun.show(v)))
     for pos, want in ((0, ("Some", E[0])), (2, ("Some", E[2])), (3, ("None",)), (9, ("None",))):
         judge("builder:get", "get", [builder(), pos],
@@ -513,20 +512,16 @@ def check_finish(chk, prog, cfg, rule="R1.6"):
     E = (S_("t0"), S_("t1"), S_("t2"))
 
     class FN(symrun.Run):
-        def handler(self, name, args, t):
-            sp = mir.strip_generics(name)
-            if sp.endswith("Interner::elements") and len(args) == 1:
-                self.log.append(("elements", args[0]))
-                return ("vec", E)
-            return symrun.Run.handler(self, name, args, t)
+        pass
     r = FN(prog)
     ok = False
+    INTERNER = symrun.struct(prog, "scale_info::interner::Interner", "self.types", vec=("vec", E))
     try:
-        v = r.run(b.path, [symrun.struct(prog, PRB, "self", types=S_("self.types"))])
+        v = r.run(b.path, [symrun.struct(prog, PRB, "self", types=INTERNER)])
         tys = symrun.field(v, "types") if symrun.is_struct(v, PR) else None
         ok = isinstance(tys, tuple) and tys[:1] == ("vec",) and len(tys[1]) == 3 and all(
             symrun.is_struct(x, PT) and symrun.field(x, "id") == i_ and symrun.field(x, "ty") == E[i_] for i_, x in enumerate(tys[1])) \
-            and all(x == ("elements", S_("self.types")) for x in r.log if x[0] != "push") and bool(r.log)
+            and not [x for x in r.log if x[0] not in ("push", "get", "index")]
         detail = "with elements [t0, t1, t2]: finish() = %s" % symrun.show(v)[:260]
     except _ai.Unrecognised as e:
         detail = "cannot interpret: %s" % e
